@@ -21,7 +21,7 @@ PROPS: dict[str, dict] = {
     "C18": {"modules": ["vf.h_gateway"], "harnesses": ["gateway-reports"]},
     "C19": {"modules": ["vf.h_builder"], "harnesses": ["job-builder"]},
     "C12": {"modules": ["vf.h_serial"], "harnesses": ["serial-roundtrip"]},
-    "C10": {"modules": ["vf.h_lower"], "harnesses": ["lower-args", "lower-yields"]},
+    "C10": {"modules": ["vf.h_lower"], "harnesses": ["lower-args", "lower-yields", "lower-builder-run"]},
     "C16": {"modules": ["vf.h_presched"], "harnesses": ["presched"]},
     "C01": {"modules": ["vf.h_ctrl"], "harnesses": ["ctrl-C01"]},
     "C02": {"modules": ["vf.h_ctrl", "vf.h_worker"], "harnesses": ["ctrl-C02", "worker-wakeup"]},
